@@ -62,7 +62,12 @@ type xCase struct {
 	steps []xStep
 }
 
-func fname(i int) string { return fmt.Sprintf("f%d", i) }
+func fname(i int) string {
+	if i >= xNumFields && i-xNumFields < len(pipeSyslogNames) {
+		return pipeSyslogNames[i-xNumFields] // the pipe component's schema continues with the syslog fields
+	}
+	return fmt.Sprintf("f%d", i)
+}
 
 func jstr(s string) string { b, _ := json.Marshal(s); return string(b) }
 
